@@ -7,6 +7,7 @@ pub mod report;
 pub mod pcmodel;
 pub mod btok;
 pub mod slots;
+pub mod prec;
 
 pub use outcome::*;
 pub use report::*;
